@@ -1,3 +1,274 @@
+/-
+  Props/C13.lean — Both drivers move bytes faithfully and always deliver an operation's result.
+  What is logic is proved here about Model/Driver.lean: the write loop's accounting, the websocket read
+  adapter, the result slot.  Thread/task interleavings and the transports themselves are the
+  environment; the real drivers are run against scripted transports by the C13 suites.
+-/
 import GV.Model.Driver
 namespace GV.Props.C13
+open GV
+
+/-! ### write loop: exactly the engine's bytes, in order, without loss or duplication -/
+
+/-- the accounting invariant: what the transport accepted, followed by what is still unsent in the
+    buffer, is exactly what the engine produced -/
+def WInv (w : WriteLoop) : Prop :=
+  w.cursor ≤ w.buf.length ∧ w.wire ++ w.buf.drop w.cursor = w.produced
+
+theorem winv_init : WInv {} := by simp [WInv]
+
+theorem winv_step (w : WriteLoop) (ev : WEvent) (h : WInv w) : WInv (w.step ev) := by
+  obtain ⟨hc, hw⟩ := h
+  cases ev with
+  | service batch =>
+    simp only [WriteLoop.step, WInv]
+    refine ⟨by simp; omega, ?_⟩
+    rw [List.drop_append_of_le_length hc, ← List.append_assoc, hw]
+  | stalled => exact ⟨hc, hw⟩
+  | accepted n =>
+    simp only [WriteLoop.step]
+    have hsplit : w.wire ++ (w.buf.drop w.cursor).take (min n (w.buf.length - w.cursor))
+        ++ w.buf.drop (w.cursor + min n (w.buf.length - w.cursor)) = w.produced := by
+      rw [List.append_assoc, ← hw]
+      congr 1
+      rw [← List.drop_drop]
+      exact List.take_append_drop _ _
+    split
+    · rename_i hfull
+      refine ⟨by simp, ?_⟩
+      have : w.buf.drop (w.cursor + min n (w.buf.length - w.cursor)) = [] := by
+        rw [hfull.2]; simp
+      simpa [this] using hsplit
+    · exact ⟨by simp only []; omega, hsplit⟩
+
+/-- for every sequence of services, accepted writes (of any size) and stalls -/
+theorem winv_run (evs : List WEvent) (w : WriteLoop) (h : WInv w) : WInv (w.run evs) := by
+  induction evs generalizing w with
+  | nil => exact h
+  | cons e es ih => exact ih _ (winv_step w e h)
+
+/-- **No loss, duplication or reordering.**  After any history the bytes the transport has accepted are a
+    prefix of the bytes the engine produced, the rest being exactly the unsent remainder the loop offers next. -/
+theorem transport_gets_engine_bytes (evs : List WEvent) :
+    let w := (({} : WriteLoop).run evs)
+    w.wire ++ w.offered = w.produced := (winv_run evs {} winv_init).2
+
+theorem wire_is_prefix (evs : List WEvent) :
+    (({} : WriteLoop).run evs).wire <+: (({} : WriteLoop).run evs).produced :=
+  ⟨_, transport_gets_engine_bytes evs⟩
+
+/-- once nothing is left to offer, everything produced has been handed to the transport -/
+theorem drained_means_all_sent (evs : List WEvent) (h : (({} : WriteLoop).run evs).offered = []) :
+    (({} : WriteLoop).run evs).wire = (({} : WriteLoop).run evs).produced := by
+  have := transport_gets_engine_bytes evs
+  simp only [h, List.append_nil] at this
+  exact this
+
+/-- **Write completion only for a fully written batch.**  A step reports write completion exactly when it
+    is an accepted write that empties a non-empty pending slice. -/
+theorem completion_only_when_batch_written (w : WriteLoop) (ev : WEvent) (h : WInv w)
+    (hc : (w.step ev).completions ≠ w.completions) :
+    (w.step ev).completions = w.completions + 1 ∧ (w.step ev).offered = [] ∧ w.offered ≠ [] ∧
+      ∃ n, ev = .accepted n ∧ w.offered.length ≤ n := by
+  cases ev with
+  | service batch => simp [WriteLoop.step] at hc
+  | stalled => simp [WriteLoop.step] at hc
+  | accepted n =>
+    simp only [WriteLoop.step] at hc ⊢
+    split
+    · rename_i hfull
+      refine ⟨rfl, by simp [WriteLoop.offered], ?_, n, rfl, ?_⟩
+      · intro he
+        have : w.buf.length - w.cursor = 0 := by simpa [WriteLoop.offered] using congrArg List.length he
+        omega
+      · simp only [WriteLoop.offered, List.length_drop]
+        have := h.1
+        omega
+    · rename_i hnot
+      simp [hnot] at hc
+
+/-- non-vacuity: a batch written in three pieces with a stall in between, then a second batch -/
+example : (({} : WriteLoop).run [.service [1, 2, 3, 4], .accepted 1, .stalled, .accepted 2, .accepted 9, .service [5], .accepted 1]) =
+    { buf := [], cursor := 0, wire := [1, 2, 3, 4, 5], produced := [1, 2, 3, 4, 5], completions := 2 } := by decide
+
+/-! ### websocket read adapter: the byte stream is the concatenation of the message payloads -/
+
+def payloadOf : WsMsg → Bytes
+  | .data p => p
+  | .control => []
+
+def payloads (ms : List WsMsg) : Bytes := (ms.map payloadOf).flatten
+
+/-- what the adapter still owes the caller: the unread tail of the current message, then every arrived message -/
+def residual (r : WsReader) (arrived : List WsMsg) : Bytes :=
+  (match r.cur with | some (d, i) => d.drop i | none => []) ++ payloads arrived
+
+def resultBytes : WsResult → Bytes
+  | .ok b => b
+  | .wouldBlock => []
+
+theorem cursorRead_spec (data : Bytes) (index space : Nat) :
+    (cursorRead data index space).1 ++ data.drop (cursorRead data index space).2 = data.drop index ∧
+    (cursorRead data index space).1.length ≤ space ∧
+    ((cursorRead data index space).1.length < space → data.drop (cursorRead data index space).2 = []) := by
+  simp only [cursorRead]
+  refine ⟨?_, ?_, ?_⟩
+  · rw [← List.drop_drop]; exact List.take_append_drop _ _
+  · simp only [List.length_take, List.length_drop]; omega
+  · intro h
+    simp only [List.length_take, List.length_drop] at h
+    apply List.drop_eq_nil_of_le
+    omega
+
+/-- one pass of the loop conserves bytes: what is returned plus what is still owed equals what was in the
+    caller's buffer already plus what was owed before; and the result fits the buffer -/
+theorem wsLoop_conserves : ∀ (fuel : Nat) (r : WsReader) (arrived : List WsMsg) (bufLen : Nat) (acc : Bytes),
+    acc.length ≤ bufLen →
+    let out := wsLoop fuel r arrived bufLen acc
+    resultBytes out.2.2 ++ residual out.1 out.2.1 = acc ++ residual r arrived ∧
+    (resultBytes out.2.2).length ≤ bufLen ∧
+    (out.2.2 = .wouldBlock → acc = [])
+  | 0, r, arrived, bufLen, acc, hacc => by
+    simp only [wsLoop]
+    cases acc with
+    | nil => simp [resultBytes]
+    | cons a t => simp [resultBytes]; exact hacc
+  | fuel + 1, r, arrived, bufLen, acc, hacc => by
+    simp only [wsLoop]
+    by_cases hfull : acc.length ≥ bufLen
+    · simp only [hfull, ↓reduceIte, resultBytes]
+      exact ⟨trivial, by omega, by intro h; cases h⟩
+    · simp only [hfull, ↓reduceIte]
+      cases hcur : r.cur with
+      | none =>
+        cases arrived with
+        | nil =>
+          simp only []
+          cases acc with
+          | nil => simp [resultBytes]
+          | cons a t => simp [resultBytes]; exact hacc
+        | cons m rest =>
+          cases m with
+          | control =>
+            have ih := wsLoop_conserves fuel r rest bufLen acc hacc
+            simp only [] at ih ⊢
+            refine ⟨?_, ih.2.1, ih.2.2⟩
+            rw [ih.1]; simp [residual, payloads, payloadOf, hcur]
+          | data p =>
+            have ih := wsLoop_conserves fuel { cur := some (p, 0) } rest bufLen acc hacc
+            simp only [] at ih ⊢
+            refine ⟨?_, ih.2.1, ih.2.2⟩
+            rw [ih.1]; simp [residual, payloads, payloadOf, hcur]
+      | some c =>
+        obtain ⟨data, index⟩ := c
+        have hsp := cursorRead_spec data index (bufLen - acc.length)
+        simp only []
+        by_cases hlt : (acc ++ (cursorRead data index (bufLen - acc.length)).1).length < bufLen
+        · simp only [hlt, ↓reduceIte]
+          have hacc' : (acc ++ (cursorRead data index (bufLen - acc.length)).1).length ≤ bufLen := by omega
+          have ih := wsLoop_conserves fuel { cur := none } arrived bufLen _ hacc'
+          simp only [] at ih ⊢
+          have hempty : data.drop (cursorRead data index (bufLen - acc.length)).2 = [] := by
+            apply hsp.2.2
+            simp only [List.length_append] at hlt
+            omega
+          refine ⟨?_, ih.2.1, ?_⟩
+          · rw [ih.1]
+            simp only [residual, hcur, List.nil_append, List.append_assoc]
+            rw [← hsp.1, hempty]; simp
+          · intro hwb
+            have := ih.2.2 hwb
+            simp only [List.append_eq_nil_iff] at this
+            exact this.1
+        · simp only [hlt, ↓reduceIte]
+          have hacc' : (acc ++ (cursorRead data index (bufLen - acc.length)).1).length ≤ bufLen := by
+            simp only [List.length_append]; have := hsp.2.1; omega
+          have ih := wsLoop_conserves fuel { cur := some (data, (cursorRead data index (bufLen - acc.length)).2) } arrived bufLen _ hacc'
+          simp only [] at ih ⊢
+          refine ⟨?_, ih.2.1, ?_⟩
+          · rw [ih.1]
+            simp only [residual, hcur, List.append_assoc]
+            congr 1
+            rw [← List.append_assoc, hsp.1]
+          · intro hwb
+            have := ih.2.2 hwb
+            simp only [List.append_eq_nil_iff] at this
+            exact this.1
+
+/-- **One read.**  The bytes a read returns, followed by what the adapter still owes, are exactly what it
+    owed before; the result fits the caller's buffer; would-block returns nothing (and loses nothing). -/
+theorem ws_read_conserves (r : WsReader) (arrived : List WsMsg) (bufLen : Nat) :
+    let out := r.read arrived bufLen
+    resultBytes out.2.2 ++ residual out.1 out.2.1 = residual r arrived ∧ (resultBytes out.2.2).length ≤ bufLen := by
+  have h := wsLoop_conserves (2 * arrived.length + 4) r arrived bufLen [] (Nat.zero_le _)
+  simp only [List.nil_append] at h
+  exact ⟨h.1, h.2.1⟩
+
+/-- a session: before each read some more messages arrive -/
+def wsSession : WsReader → List WsMsg → List (List WsMsg × Nat) → Bytes → Bytes × WsReader × List WsMsg
+  | r, pending, [], got => (got, r, pending)
+  | r, pending, (more, bufLen) :: rest, got =>
+    let out := r.read (pending ++ more) bufLen
+    wsSession out.1 out.2.1 rest (got ++ resultBytes out.2.2)
+
+theorem payloads_append (a b : List WsMsg) : payloads (a ++ b) = payloads a ++ payloads b := by
+  simp [payloads]
+
+theorem residual_append (r : WsReader) (a b : List WsMsg) : residual r (a ++ b) = residual r a ++ payloads b := by
+  simp [residual, payloads_append]
+
+/-- **The byte stream is the concatenation of the message payloads**, for messages of any size and any
+    arrival pattern, read with buffers of any sizes: everything handed to the engine so far, followed by what
+    the adapter still holds, equals the concatenation of all payloads that have arrived. -/
+theorem ws_stream_is_concatenation : ∀ (calls : List (List WsMsg × Nat)) (r : WsReader) (pending : List WsMsg) (got : Bytes),
+    let out := wsSession r pending calls got
+    out.1 ++ residual out.2.1 out.2.2 = got ++ residual r pending ++ payloads (calls.map (·.1)).flatten
+  | [], r, pending, got => by simp [wsSession, payloads]
+  | (more, bufLen) :: rest, r, pending, got => by
+    have h1 := ws_read_conserves r (pending ++ more) bufLen
+    have ih := ws_stream_is_concatenation rest (r.read (pending ++ more) bufLen).1 (r.read (pending ++ more) bufLen).2.1
+      (got ++ resultBytes (r.read (pending ++ more) bufLen).2.2)
+    simp only [wsSession] at ih ⊢
+    rw [ih, List.append_assoc got, h1.1, residual_append]
+    simp [payloads_append, List.append_assoc]
+
+/-- non-vacuity: a 5-byte message read with a 3-byte buffer, then two messages arriving together -/
+example : (wsSession {} [] [([.data [1, 2, 3, 4, 5]], 3), ([], 3), ([.data [6, 7], .control, .data [8]], 4096)] []).1 =
+    [1, 2, 3, 4, 5, 6, 7, 8] := by decide
+
+/-! ### result slot: exactly one result -/
+
+def isTerminal : SlotEvent → Bool
+  | _ => true
+
+theorem slot_at_most_one (evs : List SlotEvent) (s : ResultSlot) (h : s.delivered.length ≤ 1 ∧ (s.armed = true → s.delivered = [])) :
+    (evs.foldl ResultSlot.step s).delivered.length ≤ 1 ∧
+      ((evs.foldl ResultSlot.step s).armed = true → (evs.foldl ResultSlot.step s).delivered = []) := by
+  induction evs generalizing s with
+  | nil => exact h
+  | cons e es ih =>
+    apply ih
+    cases e <;> simp only [ResultSlot.step] <;> split <;> simp_all
+
+/-- **Exactly one result.**  However the operation's life goes — handled by the engine (possibly more than
+    once by mistake), rejected at submission, or dropped unhandled when the loop ends — the caller receives
+    exactly one result as soon as any of these has happened, and never a second one. -/
+theorem exactly_one_result (e : SlotEvent) (evs : List SlotEvent) :
+    ((e :: evs).foldl ResultSlot.step {}).delivered.length = 1 := by
+  have h1 : (ResultSlot.step {} e).delivered.length = 1 ∧ (ResultSlot.step {} e).armed = false := by
+    cases e <;> simp [ResultSlot.step]
+  have h2 := slot_at_most_one evs (ResultSlot.step {} e) ⟨by omega, by simp [h1.2]⟩
+  -- delivered only grows
+  have mono : ∀ (evs : List SlotEvent) (s : ResultSlot), s.delivered.length ≤ (evs.foldl ResultSlot.step s).delivered.length := by
+    intro evs
+    induction evs with
+    | nil => intro s; exact Nat.le_refl _
+    | cons x xs ih =>
+      intro s
+      refine Nat.le_trans ?_ (ih _)
+      cases x <;> simp only [ResultSlot.step] <;> split <;> simp
+  have := mono evs (ResultSlot.step {} e)
+  simp only [List.foldl_cons]
+  omega
+
 end GV.Props.C13
